@@ -110,7 +110,8 @@ def check(run):
             topo['landmark_offset_edges'] += any(e['cls'] == 'lm' for e in c['edges'])
             topo['far_guess'] += c['gj'] == 2
             cc = {k: v for k, v in c.items() if k not in ('grp', 'gj', 'conv')}
-            g = GC.build_graph(cc, random.Random(gi).choice(GC.ID_MAPS))
+            sc = [1.0, 2.0 ** -30, 2.0 ** 20][(gi + 2 * c['gj']) % 3]          # a common factor of all information matrices does not move the optimum
+            g = GC.build_graph(cc, random.Random(gi).choice(GC.ID_MAPS), info_scale=sc)
             key = dict(kind=c['verts'][0]['k'], guess=['lattice', 'near', 'far'][c['gj']])
             hist = ['none', 'two-calls', 'shared-initial-object'][(gi + c['gj']) % 3]
             fxd = [bool(v['fixed']) or (c['fixFirst'] and j == 0) for j, v in enumerate(cc['verts'])]
@@ -149,8 +150,8 @@ def check(run):
                 run.violation(dict(key, outcome='not-optimum'), 'final poses deviate from the exact minimiser by %.3g (> %.3g, cond %.3g): got %r want %r | case %r' % (
                     dv, tol, cond, got.tolist(), want.tolist(), cc), dict(case=cc, exact_optimum=[str(y) for y in x]))
                 continue
-            chif = float(chi)
-            if abs(ret.final_chi2 - chif) > 1e-7 * (1.0 + abs(chif)) + 1e-9 * scale ** 2:
+            chif = float(chi) * sc
+            if abs(ret.final_chi2 - chif) > (1e-7 * (1.0 + abs(chif) / sc) + 1e-9 * scale ** 2) * sc:
                 run.violation(dict(key, outcome='final-chi2'), 'final_chi2 %r, exact chi2 at the optimum %r | case %r' % (ret.final_chi2, chif, cc), dict(case=cc))
             if run.replayed % 19 == 1:
                 run.sample(dict(case=cc, exact_optimum=[str(y) for y in x], exact_chi2=str(chi), code_final_chi2=ret.final_chi2, code_iterations=ret.num_iterations))
